@@ -1,6 +1,7 @@
 import Solvor.Path.Lemmas
 import Solvor.Path.BellmanFord
 import Solvor.Path.Search
+import Solvor.Path.BFAcyc
 /-! Path: `bf_rounds_bound` — if no negative cycle is reachable, `n - 1` rounds of Bellman-Ford leave no
 relaxable edge (walks are shortened to at most `n - 1` edges by removing non-negative cycles). -/
 namespace Solvor.Path
@@ -340,8 +341,9 @@ theorem bf_unbounded_neg_cycle {E : List (Edge Int)} {n s : Nat} (target : Optio
         rcases hcase with h0 | ⟨dv', h4, h5⟩
         · rw [hdv] at h0; cases h0
         · rw [hdv] at h4; cases h4; omega
+  have hpc := no_par_cycle (E := E) hs hnn
   unfold bellmanFord bfFinish at hu
-  simp [hfin] at hu
+  simp [hfin, hpc] at hu
   cases target with
   | none => simp at hu
   | some t =>
